@@ -134,3 +134,78 @@ def findings():
         if not ok:
             rc = core.EXIT_HARNESS
     return rc
+
+
+# --------------------------------------------------------------------------
+# sensitivity: every catalogued mutant must be caught by its property's quick check
+
+def _scratch_copy(tag):
+    dst = '/tmp/plastex_mut_%d_%s' % (os.getpid(), tag)
+    if os.path.exists(dst):
+        shutil.rmtree(dst)
+    subprocess.run(['rsync', '-a', '--exclude', '.git', '--exclude', '__pycache__', '--exclude', 'buildir',
+                    core.REPO.rstrip('/') + '/', dst + '/'], check=True)
+    return dst
+
+
+def run_check_on(repo, pid, runs=None, tier='quick', seed=None, out=None, timeout=2400):
+    env = dict(os.environ)
+    env['VERIF_REPO'] = repo
+    env['VERIF_OUT'] = out or (repo + '.out')
+    env['PYTHONHASHSEED'] = '0'
+    env['VERIF_MAX_REPORT'] = '2'
+    cmd = [core.PYTHON, os.path.join(core.VERIF, 'bin', 'verify'), pid, '--tier', tier]
+    if runs:
+        cmd += ['--runs', str(runs)]
+    if seed is not None:
+        cmd += ['--seed', str(seed)]
+    p = subprocess.run(cmd, capture_output=True, text=True, env=env, timeout=timeout)
+    return p.returncode, p.stdout + p.stderr
+
+
+def sensitivity(pids, base_seed, only=None):
+    from . import mutants
+    rc = 0
+    results = []
+    for pid, name, relpath, old, new in mutants.MUTANTS:
+        if pid not in pids or (only and name not in only):
+            continue
+        repo = _scratch_copy(name[:20])
+        out = repo + '.out'
+        try:
+            path = os.path.join(repo, relpath)
+            src = open(path).read()
+            if src.count(old) != 1:
+                print('sensitivity %s %-44s MUTANT-DOES-NOT-APPLY (%d matches)' % (pid, name, src.count(old)))
+                rc = core.EXIT_HARNESS
+                continue
+            src = src.replace(old, new)
+            if name in mutants.EXTRA and mutants.EXTRA[name][0] == relpath:
+                src += mutants.EXTRA[name][1]
+            open(path, 'w').write(src)
+            t0 = time.monotonic()
+            code, text = run_check_on(repo, pid, seed=base_seed, out=out)
+            sigs = [ln.split('signature:')[1].strip() for ln in text.splitlines() if 'signature:' in ln]
+            verdict = 'caught' if code == 1 and 'VIOLATION property=%s' % pid in text else \
+                ('HARNESS-ERROR' if code == 2 else 'MISSED')
+            print('sensitivity %s %-44s %s in %.0fs %s' % (pid, name, verdict, time.monotonic() - t0, sigs[:2]))
+            if verdict != 'caught':
+                rc = core.EXIT_HARNESS
+                print(text[-800:])
+            results.append({'property': pid, 'mutant': name, 'verdict': verdict, 'signatures': sigs[:3]})
+        finally:
+            shutil.rmtree(repo, ignore_errors=True)
+            shutil.rmtree(out, ignore_errors=True)
+    path = os.path.join(core.VERIF, 'evidence', 'sensitivity.json')
+    old = {}
+    if os.path.exists(path):
+        try:
+            old = dict(((r['property'], r['mutant']), r) for r in json.load(open(path))['results'])
+        except Exception:
+            old = {}
+    for r in results:
+        old[(r['property'], r['mutant'])] = r
+    with open(path, 'w') as f:
+        json.dump({'results': sorted(old.values(), key=lambda r: (r['property'], r['mutant']))}, f, indent=1)
+        f.write('\n')
+    return rc
